@@ -189,6 +189,7 @@ func (m *Map) Remove(key KeyType) bool {
 
 // Removes all the mappings from this map.
 func (m *Map) Clear() {
+	m.version++
 	m.size = 0
 	m.root = nil
 }
